@@ -8,6 +8,9 @@
 // With --then the problem is given incrementally: the files before it are read and solved (verdict and solution are
 // recorded), the solver is taken back to root level (as the repository's own incremental client does), then the next
 // group is read into the same solver and solved again, and so on.
+// --script: every file is handed to read(const std::string &) as text instead of read(files).
+// --recover: a group whose reading is rejected with a reported error is recorded ("rejected") and the session goes on
+//            with the next group, as a client that catches the error and keeps using the solver does.
 //
 // Needs a build with BUILD_LISTENERS (configuration dbg_exec / rel_exec) for the causal graph; without it the flaws
 // section is empty.
@@ -520,6 +523,13 @@ struct exec_client : public executor_listener
             o += (i ? ",[" : "[") + std::to_string(v[i].first) + "," + v[i].second + "]";
         return o + "]";
     }
+    // the atoms of a callback in the order of their identifiers (the iteration order of the set depends on addresses)
+    static std::vector<atom *> ordered(const std::unordered_set<atom *> &atms)
+    {
+        std::vector<atom *> v(atms.begin(), atms.end());
+        std::sort(v.begin(), v.end(), [](atom *a, atom *b) { return id_of(a) < id_of(b); });
+        return v;
+    }
     void log(const std::string &l) { events.push_back(l); }
     void tick(const smt::rational &time) override { log("{\"e\":\"x_tick\",\"time\":" + js(time) + "}"); }
     void starting(const std::unordered_set<atom *> &atms) override
@@ -527,7 +537,7 @@ struct exec_client : public executor_listener
         log("{\"e\":\"x_starting\",\"atoms\":" + atoms_with(atms, true) + "}");
         std::unordered_map<const atom *, smt::rational> req;
         std::string r = "[";
-        for (const auto &a : atms)
+        for (const auto &a : ordered(atms))
             if ((int)(rng() % 100) < p_delay_start)
             {
                 const long d = 1 + (long)(rng() % 2);
@@ -546,7 +556,7 @@ struct exec_client : public executor_listener
         log("{\"e\":\"x_ending\",\"atoms\":" + atoms_with(atms, false) + "}");
         std::unordered_map<const atom *, smt::rational> req;
         std::string r = "[";
-        for (const auto &a : atms)
+        for (const auto &a : ordered(atms))
             if ((int)(rng() % 100) < p_delay_end)
             {
                 const long d = 1 + (long)(rng() % 2);
@@ -626,7 +636,7 @@ int main(int argc, char **argv)
     g_name = argv[3];
     std::vector<std::string> files;
     std::vector<std::vector<std::string>> more; // the groups of files read after the first solve (incremental use)
-    bool exec_mode = false;
+    bool exec_mode = false, as_script = false, recover = false;
     unsigned x_seed = 1;
     int x_pds = 0, x_pde = 0, x_pf = 0, x_ticks = 30;
     for (int i = 4; i < argc; ++i)
@@ -640,6 +650,10 @@ int main(int argc, char **argv)
             x_ticks = atoi(argv[i + 5]);
             i += 5;
         }
+        else if (!strcmp(argv[i], "--script"))
+            as_script = true;
+        else if (!strcmp(argv[i], "--recover"))
+            recover = true;
         else if (!strcmp(argv[i], "--then"))
             more.emplace_back();
         else if (!more.empty())
@@ -672,12 +686,46 @@ int main(int argc, char **argv)
         std::string verdict;
         try
         {
+            auto read_group = [&](const std::vector<std::string> &fs) -> bool
+            { // returns false when the group was rejected and the session recovers
+                try
+                {
+                    if (as_script)
+                        for (const auto &f : fs)
+                        {
+                            std::ifstream in(f);
+                            std::stringstream ss;
+                            ss << in.rdbuf();
+                            s.read(ss.str());
+                        }
+                    else
+                        s.read(fs);
+                    return true;
+                }
+                catch (const unsolvable_exception &)
+                {
+                    throw;
+                }
+                catch (const inconsistency_exception &)
+                {
+                    throw;
+                }
+                catch (const std::exception &ex)
+                {
+                    if (!recover)
+                        throw;
+                    emit_event("rejected", ",\"what\":\"" + vj::esc(ex.what()) + "\"");
+                    return false;
+                }
+            };
             g_phase = "read";
-            s.read(files);
+            const bool first_ok = read_group(files);
             g_phase = "solve";
-            verdict = s.solve() ? "solved" : "unsolvable";
-            for (size_t step = 0; step < more.size() && verdict == "solved"; ++step)
+            verdict = !first_ok ? "rejected" : s.solve() ? "solved" : "unsolvable";
+            for (size_t step = 0; step < more.size() && (verdict == "solved" || verdict == "rejected"); ++step)
             { // incremental use: the solution so far is recorded, then more of the problem is read
+                if (verdict == "solved")
+                {
                 const double secs0 = std::chrono::duration<double>(std::chrono::steady_clock::now() - t0).count();
                 emit_event("verdict", ",\"verdict\":\"solved\",\"step\":" + std::to_string(step) + ",\"ms\":" + std::to_string((long)(secs0 * 1000)) + ",\"n\":" + std::to_string(g_nt.n_sat) + ",\"clauses\":" + std::to_string(g_nt.clauses.size()) + ",\"learnts\":" + std::to_string(g_nt.learnts.size()));
 #ifdef BUILD_LISTENERS
@@ -685,12 +733,13 @@ int main(int argc, char **argv)
 #else
                 dump_solution(s, secs0);
 #endif
+                }
                 g_phase = "read";
                 while (!s.root_level()) // the protocol of the repository's own incremental client (executor/ros/deliberative_executor.cpp)
                     s.get_sat_core().pop();
-                s.read(more[step]);
+                const bool ok = read_group(more[step]);
                 g_phase = "solve";
-                verdict = s.solve() ? "solved" : "unsolvable";
+                verdict = !ok ? "rejected" : s.solve() ? "solved" : "unsolvable";
             }
         }
         catch (const unsolvable_exception &)
@@ -736,6 +785,7 @@ int main(int argc, char **argv)
                     if (x_pf > 0 && (int)(frng() % 100) < x_pf)
                     {
                         auto ra = relevant_atoms(s);
+                        std::sort(ra.begin(), ra.end(), [](atom *a, atom *b) { return id_of(a) < id_of(b); });
                         if (!ra.empty())
                         {
                             atom *victim = ra[frng() % ra.size()];
